@@ -53,6 +53,15 @@ use identity_jose::jwk::Jwk;
 use identity_jose::jwk::JwkSet;
 use identity_jose::jws::Decoder;
 use identity_jose::jws::JwsHeader;
+use identity_jose::jws::JwsAlgorithm;
+use identity_jose::jws::JwsVerifier;
+use identity_jose::jws::VerificationInput;
+use identity_ecdsa_verifier::EcDSAJwsVerifier;
+use identity_eddsa_verifier::EdDSAJwsVerifier;
+use identity_credential::credential::LinkedDomainService;
+use identity_credential::credential::LinkedVerifiablePresentationService;
+use identity_credential::domain_linkage::DomainLinkageConfiguration;
+use identity_credential::domain_linkage::JwtDomainLinkageValidator;
 use identity_storage::key_id_storage::MethodDigest;
 use identity_verification::MethodScope;
 use identity_verification::VerificationMethod;
@@ -95,7 +104,7 @@ fn hash_of<T: Hash>(t: &T) -> u64 {
   h.finish()
 }
 
-const MODELLED: [&str; 7] = ["did", "url", "iota", "ts", "unpack", "mdigest", "integrity"];
+const MODELLED: [&str; 9] = ["did", "url", "iota", "ts", "unpack", "mdigest", "integrity", "linked", "linkednew"];
 
 struct NoResolver;
 #[async_trait::async_trait]
@@ -197,6 +206,16 @@ fn walk_jwk(j: &Jwk) {
   st("serde");
   let _ = j.to_json();
   let _ = format!("{:?}", j);
+  // the library's own signature verifiers, handed this (externally supplied) key: every algorithm name, signatures of the
+  // usual lengths; a verifier has to answer with an error, whatever the key members decode to
+  for alg in [JwsAlgorithm::EdDSA, JwsAlgorithm::ES256, JwsAlgorithm::ES256K, JwsAlgorithm::ES384, JwsAlgorithm::HS256, JwsAlgorithm::RS256, JwsAlgorithm::NONE] {
+    for n in [0usize, 64, 65] {
+      st("eddsa_verify");
+      let _ = EdDSAJwsVerifier::default().verify(VerificationInput { alg, signing_input: b"a.b".to_vec().into(), decoded_signature: vec![1u8; n].into() }, j).is_ok();
+      st("ecdsa_verify");
+      let _ = EcDSAJwsVerifier::default().verify(VerificationInput { alg, signing_input: b"a.b".to_vec().into(), decoded_signature: vec![1u8; n].into() }, j).is_ok();
+    }
+  }
   st("vm_from_jwk");
   if let Ok(did) = CoreDID::parse("did:ex:abc") {
     if let Ok(vm) = VerificationMethod::new_from_jwk(did, j.clone(), Some("k")) {
@@ -673,8 +692,40 @@ fn entry(name: &str, data: &[u8], aux: &[u8]) -> Option<bool> {
           st("to_service");
           let _ = b.to_service(sv.id().clone()).map(|s2| RevocationBitmap::try_from(&s2).is_ok());
         }
+        st("linked_domain");
+        let _ = LinkedDomainService::check_structure(&sv).is_ok();
+        if let Ok(l) = LinkedDomainService::try_from(sv.clone()) {
+          st("linked_domain_accessors");
+          let _ = (l.domains().len(), l.id().to_string(), Service::from(l).to_json());
+        }
+        st("linked_vp");
+        let _ = LinkedVerifiablePresentationService::check_structure(&sv).is_ok();
+        if let Ok(l) = LinkedVerifiablePresentationService::try_from(sv.clone()) {
+          st("linked_vp_accessors");
+          let _ = (l.verifiable_presentation_urls().len(), l.id().to_string(), l.to_json());
+        }
+        st("linked_vp_serde");
+        if let Ok(l) = LinkedVerifiablePresentationService::from_json(&s) {
+          st("linked_vp_accessors");
+          let _ = (l.verifiable_presentation_urls().len(), l.id().to_string());
+        }
         st("display");
         let _ = (format!("{}", sv), sv.to_json());
+        true
+      }
+      Err(_) => false,
+    },
+    "dlconfig" => match DomainLinkageConfiguration::from_json(&s) {
+      Ok(c) => {
+        st("accessors");
+        let _ = (c.linked_dids().len(), c.issuers().map(|i| i.len()), c.to_json(), format!("{}", c).len());
+        st("validate_linkage");
+        let v = JwtDomainLinkageValidator::with_signature_verifier(ToyVerifier);
+        for dom in ["https://a.example", "https://a.example/p?q", "http://a.example", "did:ex:i1"] {
+          if let Ok(u) = Url::parse(dom) {
+            let _ = v.validate_linkage(&issuer_doc(), &c, &u, &JwtCredentialValidationOptions::default()).is_ok();
+          }
+        }
         true
       }
       Err(_) => false,
@@ -906,6 +957,133 @@ fn sd_jwt_vc_token_h(header: &str, claims: &str, disclosures: &[&str]) -> String
   t
 }
 
+// ---------------------------------------------------------------------------------------------------------
+// the linked-service wrappers against their model (IdModel/Panic/Linked.lean): the request is an abstract spec, the harness
+// builds the service JSON from it
+fn l_url(c: char) -> Option<(&'static str, u32)> {
+  Some(match c {
+    'a' => ("https://a.example", 1),
+    'b' => ("https://b.example/", 2),
+    'p' => ("https://a.example/p", 3),
+    'q' => ("https://a.example?q", 4),
+    'f' => ("https://a.example#f", 5),
+    'h' => ("http://a.example", 6),
+    'd' => ("did:ex:x", 7),
+    _ => return None,
+  })
+}
+fn l_tag(u: &Url) -> String {
+  for c in ['a', 'b', 'p', 'q', 'f', 'h', 'd'] {
+    let (s, t) = l_url(c).unwrap();
+    if Url::parse(s).map(|x| &x == u).unwrap_or(false) {
+      return t.to_string();
+    }
+  }
+  "?".into()
+}
+fn l_tags(us: &[Url]) -> String {
+  format!("n{}", us.iter().map(l_tag).collect::<Vec<_>>().join(","))
+}
+fn linked_json(spec: &str) -> Option<String> {
+  let (ts, ep) = spec.split_once('|')?;
+  let types: Vec<&str> = ts
+    .chars()
+    .map(|c| match c {
+      'L' => Some("LinkedDomains"),
+      'V' => Some("LinkedVerifiablePresentation"),
+      'X' => Some("X"),
+      'Y' => Some("linkeddomains"),
+      _ => None,
+    })
+    .collect::<Option<_>>()?;
+  let q = |c: char| l_url(c).map(|(s, _)| format!("\"{}\"", s));
+  let mut cs = ep.chars();
+  let e = match cs.next()? {
+    'o' => q(cs.next()?)?,
+    's' => format!("[{}]", cs.map(q).collect::<Option<Vec<_>>>()?.join(",")),
+    'm' => {
+      let rest: String = cs.collect();
+      let mut groups = vec![];
+      for g in rest.split(';').filter(|g| !g.is_empty()) {
+        let mut gc = g.chars();
+        let k = match gc.next()? {
+          'o' => "origins",
+          'x' => "x",
+          'y' => "Origins",
+          _ => return None,
+        };
+        groups.push(format!("\"{}\":[{}]", k, gc.map(q).collect::<Option<Vec<_>>>()?.join(",")));
+      }
+      format!("{{{}}}", groups.join(","))
+    }
+    _ => return None,
+  };
+  let t = if types.len() == 1 { format!("\"{}\"", types[0]) } else { format!("[{}]", types.iter().map(|t| format!("\"{}\"", t)).collect::<Vec<_>>().join(",")) };
+  Some(format!(r#"{{"id":"did:ex:i1#l","type":{},"serviceEndpoint":{}}}"#, t, e))
+}
+fn linked_reply(name: &str, spec: &str) -> String {
+  if name == "linkednew" {
+    let mut cs = spec.chars();
+    let kind = cs.next();
+    let us: Option<Vec<Url>> = cs.map(|c| l_url(c).and_then(|(s, _)| Url::parse(s).ok())).collect();
+    let (Some(kind), Some(us)) = (kind, us) else { return "bad-request".into() };
+    let set: identity_core::common::OrderedSet<Url> = us.into_iter().collect();
+    let id = DIDUrl::parse("did:ex:i1#l").unwrap();
+    return match kind {
+      'L' => match LinkedDomainService::new(id, set, Object::new()) {
+        Ok(l) => {
+          st("linked_domain_accessors");
+          let d = l_tags(l.domains());
+          format!("ok/{}/{}", d, if LinkedDomainService::check_structure(&Service::from(l)).is_ok() { "ok" } else { "err" })
+        }
+        Err(_) => "err".into(),
+      },
+      'V' => match LinkedVerifiablePresentationService::new(id, set, Object::new()) {
+        Ok(l) => {
+          st("linked_vp_accessors");
+          let d = l_tags(l.verifiable_presentation_urls());
+          format!("ok/{}/{}", d, if LinkedVerifiablePresentationService::check_structure(&Service::from(l)).is_ok() { "ok" } else { "err" })
+        }
+        Err(_) => "err".into(),
+      },
+      _ => "bad-request".into(),
+    };
+  }
+  let Some(json) = linked_json(spec) else { return "bad-request".into() };
+  let sv = match Service::from_json(&json) {
+    Ok(sv) => sv,
+    Err(e) => return format!("service-json-refused:{}", e),
+  };
+  st("linked_domain");
+  let ld = match LinkedDomainService::try_from(sv.clone()) {
+    Ok(l) => {
+      // the fallible constructor and the free-standing check must agree
+      let agree = LinkedDomainService::check_structure(&sv).is_ok();
+      st("linked_domain_accessors");
+      format!("ok/{}{}", l_tags(l.domains()), if agree { "" } else { "!check_structure-disagrees" })
+    }
+    Err(_) => "err".into(),
+  };
+  st("linked_vp");
+  let lvp = match LinkedVerifiablePresentationService::try_from(sv.clone()) {
+    Ok(l) => {
+      st("linked_vp_accessors");
+      let a = l_tags(l.verifiable_presentation_urls());
+      // the serde path (try_from = "Service") must accept the same services
+      let serde_ok = LinkedVerifiablePresentationService::from_json(&json).is_ok();
+      format!("ok/{}{}", a, if serde_ok { "" } else { "!serde-disagrees" })
+    }
+    Err(_) => {
+      if LinkedVerifiablePresentationService::from_json(&json).is_ok() {
+        "err!serde-accepts".into()
+      } else {
+        "err".into()
+      }
+    }
+  };
+  format!("ld:{} lvp:{}", ld, lvp)
+}
+
 pub fn run(args: &[&str]) -> String {
   hook();
   let (name, data, aux) = match args {
@@ -918,6 +1096,17 @@ pub fn run(args: &[&str]) -> String {
     _ => return "bad-request".into(),
   };
   PANIC.with(|p| *p.borrow_mut() = None);
+  if name == "linked" || name == "linkednew" {
+    let spec = String::from_utf8_lossy(&data).to_string();
+    return match std::panic::catch_unwind(AssertUnwindSafe(|| linked_reply(name, &spec))) {
+      Ok(s) => s,
+      Err(_) => {
+        let stage = STAGE.with(|s| s.borrow().clone());
+        let info = PANIC.with(|p| p.borrow().clone()).unwrap_or_default();
+        format!("panic\t#FAIL:panic@{}/{}@{}:the implementation panicked in stage `{}` of entry `{}` on spec {}: {}", name, stage, info.replace(':', ";").replace(' ', "_"), stage, name, spec, info)
+      }
+    };
+  }
   let r = std::panic::catch_unwind(AssertUnwindSafe(|| entry(name, &data, &aux)));
   let modelled = MODELLED.contains(&name);
   match r {
@@ -1188,6 +1377,8 @@ fn seeds() -> Vec<Seeds> {
   let jwk_ec = r#"{"kty":"EC","crv":"P-256","x":"acbIQiuMs3i8_uszEjJ2tpTtRM4EU3yz91PH6CdH2V0","y":"_KcyLj9vWMptnmKtm46GqDz8wf74I5LKgrl2GzH3nSE","x5u":"https://example.com/c","x5c":["MIIB"],"x5t":"dGVzdA","x5t#S256":"dGVzdA"}"#;
   let jwk_rsa = r#"{"kty":"RSA","n":"AQAB","e":"AQAB","d":"AQAB","p":"AQ","q":"AQ","dp":"AQ","dq":"AQ","qi":"AQ","oth":[{"r":"AQ","d":"AQ","t":"AQ"}]}"#;
   let jwk_oct = r#"{"kty":"oct","k":"AQAB"}"#;
+  let jwk_k1 = r#"{"kty":"EC","crv":"secp256k1","x":"WfY7Px6AgH6x-_dgAoRbg8weYRJA36ON-gQiFnETrqw","y":"bVy-z-v_-Y9nN2o8kw2bp6Vn7a8Sjp_NL3Dq_vCr4KQ"}"#;
+  let dl_jwt = sign_compact(r#"{"alg":"EdDSA","kid":"did:ex:i1#k0"}"#, r#"{"exp":4102444800,"iss":"did:ex:i1","nbf":1262373804,"sub":"did:ex:i1","vc":{"@context":["https://www.w3.org/2018/credentials/v1","https://identity.foundation/.well-known/did-configuration/v1"],"credentialSubject":{"origin":"https://a.example"},"type":["VerifiableCredential","DomainLinkageCredential"]}}"#, 10);
   let doc = format!(
     r##"{{"id":"{d}","controller":["{d}","did:ex:c2"],"alsoKnownAs":["https://a.example"],"verificationMethod":[{{"id":"{d}#k0","controller":"{d}","type":"JsonWebKey2020","publicKeyJwk":{k}}},{{"id":"{d}#k1","controller":"{d}","type":"Ed25519VerificationKey2018","publicKeyMultibase":"zHHoh9NQC9AUsK15Jyyq53VTujxEUizKDXRXd7zbT1B5u"}},{{"id":"{d}#k2","controller":"{d}","type":"X","publicKeyBase58":"HHoh9NQC9AUsK15Jyyq53VTujxEUizKDXRXd7zbT1B5u"}}],"authentication":["{d}#k0",{{"id":"{d}#a1","controller":"{d}","type":"JsonWebKey2020","publicKeyJwk":{k}}}],"assertionMethod":["{d}#k0"],"keyAgreement":[],"capabilityDelegation":["{d}#k1"],"capabilityInvocation":["{d}#k2"],"service":[{{"id":"{d}#rev","type":"RevocationBitmap2022","serviceEndpoint":"data:application/octet-stream;base64,eJyzMmAAAwADKABr"}},{{"id":"{d}#ld","type":["LinkedDomains","X"],"serviceEndpoint":{{"origins":["https://a.example"]}}}},{{"id":"{d}#s3","type":"T","serviceEndpoint":["https://a.example","https://b.example"],"extra":1}}],"custom":{{"a":[1,2]}}}}"##,
     d = d,
@@ -1235,6 +1426,9 @@ fn seeds() -> Vec<Seeds> {
     Seeds { name: "iotadoc", json: true, seeds: vec![iotadoc.clone()] },
     Seeds { name: "vm", json: true, seeds: vec![format!(r#"{{"id":"{d}#k0","controller":"{d}","type":"JsonWebKey2020","publicKeyJwk":{k}}}"#, d = d, k = jwk_ed), format!(r#"{{"id":"{d}#k1","controller":"{d}","type":"Ed25519VerificationKey2018","publicKeyMultibase":"zHHoh9NQC9AUsK15Jyyq53VTujxEUizKDXRXd7zbT1B5u"}}"#, d = d), format!(r#"{{"id":"{d}#k2","controller":"{d}","type":"X","publicKeyBase58":"HHoh9NQC9AUsK15Jyyq53VTujxEUizKDXRXd7zbT1B5u"}}"#, d = d)] },
     Seeds { name: "service", json: true, seeds: vec![format!(r#"{{"id":"{d}#rev","type":"RevocationBitmap2022","serviceEndpoint":"data:application/octet-stream;base64,eJyzMmAAAwADKABr"}}"#, d = d), format!(r#"{{"id":"{d}#rev","type":["RevocationBitmap2022"],"serviceEndpoint":"data:application/octet-stream;base64,ZUp5ek1tQUFBd0FES0FCcg=="}}"#, d = d), format!(r#"{{"id":"{d}#s","type":"T","serviceEndpoint":{{"a":["https://a.example"]}}}}"#, d = d)] },
+    Seeds { name: "service", json: true, seeds: vec![format!(r#"{{"id":"{d}#ld","type":"LinkedDomains","serviceEndpoint":"https://a.example"}}"#, d = d), format!(r#"{{"id":"{d}#ld","type":"LinkedDomains","serviceEndpoint":{{"origins":["https://a.example","https://b.example"]}}}}"#, d = d), format!(r#"{{"id":"{d}#ld","type":["LinkedDomains"],"serviceEndpoint":{{"x":["https://a.example"],"origins":[]}}}}"#, d = d), format!(r#"{{"id":"{d}#lv","type":"LinkedVerifiablePresentation","serviceEndpoint":"https://a.example/vp.jwt"}}"#, d = d), format!(r#"{{"id":"{d}#lv","type":"LinkedVerifiablePresentation","serviceEndpoint":["https://a.example/vp.jwt","https://b.example/vp.jwt"]}}"#, d = d)] },
+    Seeds { name: "dlconfig", json: true, seeds: vec![format!(r#"{{"@context":"https://identity.foundation/.well-known/did-configuration/v1","linked_dids":["{}","a.b.c"]}}"#, dl_jwt)] },
+    Seeds { name: "jwk", json: true, seeds: vec![jwk_k1.into(), jwk_ec.into(), r#"{"kty":"EC","crv":"P-256","x":"AQAB","y":"AQAB"}"#.into(), r#"{"kty":"EC","crv":"secp256k1","x":"","y":""}"#.into(), r#"{"kty":"OKP","crv":"Ed25519","x":"AQAB"}"#.into()] },
     Seeds { name: "cred", json: true, seeds: vec![cred.clone(), cred_sl.clone(), slc.clone()] },
     Seeds { name: "pres", json: true, seeds: vec![pres.clone()] },
     Seeds { name: "status", json: true, seeds: vec![format!(r#"{{"id":"{d}?index=5#rev","type":"RevocationBitmap2022","revocationBitmapIndex":"5"}}"#, d = d), r##"{"id":"https://example.com/credentials/status#94567","type":"StatusList2021Entry","statusPurpose":"revocation","statusListIndex":"94567","statusListCredential":"https://example.com/credentials/status"}"##.into()] },
@@ -1436,6 +1630,47 @@ pub fn gen(thorough: bool, seed: u64, out: &mut impl Write) {
     let c = format!(r#"{{"iss":"{}","iat":1,"vct":"{}"}}"#, iss, iss);
     emit(out, "sdjwtvc", sd_jwt_vc_token(&c, &[]).as_bytes());
     emit(out, "vcturl", iss.as_bytes());
+  }
+  // (e) the linked-service wrappers: every type list x every endpoint shape over the URL codes (model: Panic/Linked.lean)
+  {
+    let urls = ['a', 'b', 'p', 'q', 'f', 'h', 'd'];
+    let mut eps: Vec<String> = vec![];
+    for u in urls {
+      eps.push(format!("o{}", u));
+    }
+    // sets and origins lists: empty, singletons, ordered pairs of distinct URLs, one triple
+    let mut lists: Vec<String> = vec![String::new()];
+    for u in urls {
+      lists.push(u.to_string());
+      for v in urls {
+        if u != v {
+          lists.push(format!("{}{}", u, v));
+        }
+      }
+    }
+    lists.push("abp".into());
+    for l in &lists {
+      eps.push(format!("s{}", l));
+      eps.push(format!("mo{}", l));
+      eps.push(format!("mx{}", l));
+      eps.push(format!("my{}", l));
+      eps.push(format!("mx{};o{}", l, l));
+      eps.push(format!("mo{};xa", l));
+    }
+    eps.push("m".into());
+    let types = ["L", "V", "X", "Y", "LX", "XL", "LV", "VL", "VX"];
+    for (i, e) in eps.iter().enumerate() {
+      for (j, t) in types.iter().enumerate() {
+        // quick: every endpoint with the two wrapper types, a third of the others
+        if thorough || j < 2 || (i + j) % 3 == 0 {
+          writeln!(out, "C05 linked {}", hex(format!("{}|{}", t, e).as_bytes())).unwrap();
+        }
+      }
+    }
+    for l in &lists {
+      writeln!(out, "C05 linkednew {}", hex(format!("L{}", l).as_bytes())).unwrap();
+      writeln!(out, "C05 linkednew {}", hex(format!("V{}", l).as_bytes())).unwrap();
+    }
   }
   // random DID-ish strings from a grammar-aware generator
   for _ in 0..(if thorough { 20000 } else { 2000 }) {
